@@ -21,13 +21,14 @@ def _mk(cls):
 def replay_sys_path(w, obligation, expects):
     n = max(0, min(int(w.get("n_paths", 1)), 3))
     problems = []
-    for rebinds in (False, True):
+    for rebinds, same in ((False, False), (True, False), (True, True), (False, True)):
         for exc in [None] + EXCS:
             old = sys.path
             old_copy = list(old)
+            req = list(old) if same else [f"/nonexistent/p{i}" for i in range(n)]
             try:
                 try:
-                    with importer.sys_path(*[f"/nonexistent/p{i}" for i in range(n)]):
+                    with importer.sys_path(*req):
                         if rebinds:
                             sys.path = ["/user/rebound"]
                         if exc is not None:
@@ -38,9 +39,9 @@ def replay_sys_path(w, obligation, expects):
                 else:
                     if exc is not None:
                         problems.append(f"{exc.__name__} raised in the body was swallowed")
-                if n and sys.path is not old:
-                    problems.append(f"sys.path not restored (paths={n}, body rebinds={rebinds}, body raises={getattr(exc, '__name__', None)})")
-                if not n and not rebinds and sys.path is not old:
+                if req and sys.path is not old:
+                    problems.append(f"sys.path not restored (paths={'same as sys.path' if same else n}, body rebinds={rebinds}, body raises={getattr(exc, '__name__', None)})")
+                if not req and not rebinds and sys.path is not old:
                     problems.append("sys.path replaced although no paths were given")
             finally:
                 sys.path = old
@@ -116,6 +117,10 @@ def replay_static_load(w, obligation, expects):
             (pkg / "sub.py").write_text(f"open({str(marker)!r}, 'a').write('sub')\nx = 1\n")
             (pkg / "native.cpython-312-x86_64-linux-gnu.so").write_bytes(b"\x7fELF")
             (pkg / "native2.pyd").write_bytes(b"MZ")
+            import py_compile
+            (pkg / "bytecode_src.py").write_text(f"open({str(marker)!r}, 'a').write('pyc')\n")
+            py_compile.compile(str(pkg / "bytecode_src.py"), cfile=str(pkg / "sourceless.pyc"))
+            (pkg / "bytecode_src.py").unlink()
             ld = _static_loader(search_paths=[tmp])
             try:
                 mod = ld.load("c15pkg")
